@@ -446,12 +446,12 @@ def set_dvid(model: Model, name: str):
                 f"Could not use column {name} as DVID because it contains non-integral values"
             )
         df = df.assign(**{name: converted})
-        col = col.replace(datatype=ColumnInfo.convert_pd_dtype_to_datatype(converted.dtype))
+        col = col.replace(datatype=ColumnInfo.convert_pd_dtype_to_datatype(converted.dtype.name))
         new_dataset = True
     else:
         new_dataset = False
 
-    col = col.replace(categories=sorted(df[name].unique()))
+    col = col.replace(categories=sorted(int(cat) for cat in df[name].unique()))
 
     di = di.set_column(col)
 
